@@ -11,8 +11,12 @@ def run():
         log("warning: race build failed: %s" % e)
     sp = os.path.join(d, "spec")
     bad = 0
+    # FlytRetryTimedProof imports the proof system's standard module (the C20 check puts it there the same way)
+    tlaps = os.path.join(TLAPM_STDLIB, "TLAPS.tla")
+    if os.path.exists(tlaps):
+        shutil.copy(tlaps, sp)
     for f in sorted(os.listdir(sp)):
-        if f.endswith(".tla"):
+        if f.endswith(".tla") and f != "TLAPS.tla":
             p = subprocess.run(["java", "-cp", TLA_CP, "tla2sany.SANY", f], cwd=sp, stdout=subprocess.PIPE, stderr=subprocess.STDOUT, text=True)
             ok = p.returncode == 0 and "error" not in p.stdout.lower().replace("errors: 0", "")
             log("sany %-24s %s" % (f, "ok" if ok else "FAILED"))
